@@ -311,10 +311,12 @@ fn gen_batch(r: &mut Rng, n: usize, fail_idx: &[usize], steps_hi: usize) -> Vec<
 fn rail_vehicle(r: &mut Rng, name: &str) -> RailVehicle {
     RailVehicle {
         car_type: name.into(),
-        length: m(*r.pick(&[15.0, 17.5, 20.0, 27.0])),
+        // lengths that are NOT exactly representable (imperial car lengths in metres): a sum of such terms depends on
+        // the order of the additions, so a fold in hash order shows up as a bit difference between processes
+        length: m(*r.pick(&[15.24, 18.288, 20.4216, 27.432, 16.1544, 10.7, 19.5072])),
         axle_count: 4,
         brake_count: 1,
-        mass_static_base: uc::KG * (r.range(20, 40) as f64 * 1000.0),
+        mass_static_base: uc::KG * (r.range(20, 40) as f64 * 1000.0 + *r.pick(&[0.0, 0.1, 453.59237])),
         mass_freight: uc::KG * (r.range(0, 80) as f64 * 1000.0),
         speed_max: mps(*r.pick(&[25.0, 30.0, 35.0])),
         braking_ratio: uc::R * *r.pick(&[0.05, 0.1, 0.15]),
@@ -332,7 +334,7 @@ fn rail_vehicle(r: &mut Rng, name: &str) -> RailVehicle {
 const CAR_NAMES: [&str; 8] = ["Bulk", "Tank_Loaded", "Tank_Empty", "Autorack", "Intermodal", "Manifest_Loaded", "Manifest_Empty", "Coal"];
 
 fn gen_built(r: &mut Rng) -> Scen {
-    let k = r.usize(2, 6);
+    let k = r.usize(3, 7);
     let mut names: Vec<&str> = CAR_NAMES.to_vec();
     r.shuffle(&mut names);
     let rvs: Vec<RailVehicle> = names[..k].iter().map(|n| rail_vehicle(r, n)).collect();
